@@ -51,10 +51,11 @@ Record WF (s : topo) : Prop := mkWF {
   wf_minsum : forall p pi, find p (infos s) = Some pi -> p <> ROOT -> unflagged pi = true ->
       forall L, NoDup L -> (forall c, In c L -> uchild_of (infos s) p c) ->
       forall k, sumf (min_of (infos s) k) L <= val k (i_min pi);
-  (* 15: resource dimensions agree along every edge: same max keys, child's min keys within the parent's *)
+  (* 15: resource dimensions agree along every edge: same max keys (included ones when the gate
+         ElasticQuotaEnableUpdateResourceKey is on), child's min keys within the parent's *)
   wf_keys : forall n i p, find n (infos s) = Some i -> n <> ROOT -> i_parent i <> ROOT ->
       find (i_parent i) (infos s) = Some p ->
-      keys_same (i_max p) (i_max i) = true /\ keys_incl (i_min p) (i_min i) = true;
+      max_keys_ok (gate_keys s) (i_max p) (i_max i) = true /\ keys_incl (i_min p) (i_min i) = true;
   (* 16: a quota is in its parent's tree *)
   wf_tree : forall n i p, find n (infos s) = Some i -> n <> ROOT -> i_parent i <> ROOT ->
       find (i_parent i) (infos s) = Some p -> i_tree i = i_tree p;
@@ -101,7 +102,7 @@ Definition c14 (s : topo) (e : Z * info) : bool :=
 Definition c15 (s : topo) (e : Z * info) : bool :=
   (fst e =? ROOT) || (i_parent (snd e) =? ROOT)
   || match find (i_parent (snd e)) (infos s) with
-     | Some p => keys_same (i_max p) (i_max (snd e)) && keys_incl (i_min p) (i_min (snd e))
+     | Some p => max_keys_ok (gate_keys s) (i_max p) (i_max (snd e)) && keys_incl (i_min p) (i_min (snd e))
      | None => true
      end.
 Definition c16 (s : topo) (e : Z * info) : bool :=
@@ -209,11 +210,22 @@ Definition delete_guard_ok (prev cur : topo) (pods : list pod) (q : quota) : boo
   && negb (existsb (fun p => fst p =? q_name q) pods)
   && negb (mem (q_name q) (infos cur)).
 
-(* [cons] = the history so far was consistent (see [consistent1]) *)
-Fixpoint hist_code (prev : topo) (st : store) (cons : bool) (rs : list req)
+(* an accepted deletion while pods are bound to the quota through its namespaces (a namespace it
+   declares, or the namespace named like it) although none carries its label: what
+   hasQuotaBoundedPods would have found but ValidDeleteQuota does not look for *)
+Definition nsbound_delete (r : req) : bool :=
+  match snd r with
+  | Delete q => has_pods (fst r) (q_name q) (ann_ns q)
+  | _ => false
+  end.
+
+(* [cons] = the history so far was consistent (see [consistent1]); [pend] = 21 once a deletion
+   with namespace-bound pods was accepted (reported only if nothing else fails, so that any
+   other violation in the same history is still named) *)
+Fixpoint hist_code (prev : topo) (st : store) (cons : bool) (pend : Z) (rs : list req)
          (tr : list (bool * topo)) : Z :=
   match rs, tr with
-  | [], [] => 0
+  | [], [] => pend
   | r :: rs', (acc, cur) :: tr' =>
       let w := wf_code cur in
       if negb (w =? 0) then w
@@ -226,9 +238,9 @@ Fixpoint hist_code (prev : topo) (st : store) (cons : bool) (rs : list req)
         let cons' := cons && consistent1 st acc r in
         let st' := store_step st acc r in
         if cons' && negb (ns_okb st' cur) then 18
-        else hist_code cur st' cons' rs' tr'
+        else hist_code cur st' cons' (if acc && nsbound_delete r then 21 else pend) rs' tr'
   | _, _ => 9
   end.
 
-Definition prop_code (rs : list req) (tr : list (bool * topo)) : Z :=
-  hist_code init_topo [] true rs tr.
+Definition prop_code (g : bool * bool) (rs : list req) (tr : list (bool * topo)) : Z :=
+  hist_code (init_topo g) [] true 0 rs tr.
